@@ -114,7 +114,35 @@ pub fn gen_graph(u: &mut U) -> TypeGraph {
         struct_min[i] = size;
         defs[i] = Some(StructDef { name: names[i].clone(), members });
     }
-    TypeGraph { structs: defs.into_iter().map(Option::unwrap).collect() }
+    let mut structs: Vec<StructDef> = defs.into_iter().map(Option::unwrap).collect();
+    // deliberately produce the shape "a dependency is referenced twice and another dependency is
+    // listed before the second reference" on the first struct (the usual primary type)
+    if n >= 3 && u.ratio(1, 4) {
+        let x = names[u.range(1, n - 1)].clone();
+        let mut y = names[u.range(1, n - 1)].clone();
+        if y == x {
+            y = names[1 + (names.iter().position(|s| *s == x).unwrap() % (n - 1))].clone();
+        }
+        if x != y {
+            let wrap = |t: Ty, u: &mut U| if u.ratio(1, 3) { Ty::Array(Box::new(t), None) } else { t };
+            let mut forced = vec![
+                ("p1".to_string(), wrap(Ty::Struct(x.clone()), u)),
+                ("p2".to_string(), wrap(Ty::Struct(y.clone()), u)),
+                ("p3".to_string(), wrap(Ty::Struct(if u.bool() { y } else { x }), u)),
+            ];
+            if u.bool() {
+                forced.swap(0, 1);
+            }
+            let keep: Vec<(String, Ty)> = structs[0].members.iter().filter(|(_, t)| t.struct_ref().is_none()).take(3).cloned().collect();
+            let at = u.below(keep.len() + 1);
+            let mut members = keep;
+            for (k, f) in forced.into_iter().enumerate() {
+                members.insert((at + k).min(members.len()), f);
+            }
+            structs[0].members = members;
+        }
+    }
+    TypeGraph { structs }
 }
 
 fn gen_member_ty(u: &mut U, i: usize, n: usize, names: &[String]) -> Ty {
